@@ -34,7 +34,7 @@ theorem C10d_single_delivery_site :
     reset is necessary): one send on `m.pool.Empty` outside the pool's constructor, preceded by the one `Reset` site -/
 theorem C10d_recycle_site :
     (Gen.utilSites.filter (fun x => x.2.1 = "send" ∧ x.2.2 = "m.pool.Empty")).length = 1 ∧
-    (Gen.utilSites.filter (fun x => x.2.1 = "reset" ∧ x.2.2 = "b")).length = 1 := by
+    (Gen.utilSites.filter (fun x => x.2.1 = "reset" ∧ x.1 ≠ "Buffer.UnmarshalBinary")).length = 1 := by
   decide
 
 end OFV.Props.C10d
